@@ -48,11 +48,41 @@ def seeds_table():
     return '\n'.join(out)
 
 
+def alphabets():
+    """what every check currently enumerates: the `rule` and `bounds` each check writes into its evidence file"""
+    import importlib
+    import sys
+    sys.path.insert(0, HERE)
+    out = ['| check | tier | enumerated behaviours and oracle (as written into the evidence file) | bounds |', '|---|---|---|---|']
+    for i in range(1, 21):
+        cid = f'C{i:02d}'
+        ev = {}
+        for tier in ('quick', 'thorough'):
+            p_ = os.path.join(HERE, 'evidence', f'{cid}.json')
+            try:
+                mod = importlib.import_module(f'pyx.props.{cid}')
+                d = mod.describe(tier, 0)
+                ev[tier] = (d.get('rule', ''), json.dumps(d.get('bounds', {})))
+            except Exception:
+                if os.path.exists(p_):
+                    e = json.load(open(p_))
+                    cov = e.get('coverage', {})
+                    ev[tier] = (cov.get('rule', ''), json.dumps({k: cov[k] for k in ('depth_completed', 'ops') if k in cov}))
+        if ev.get('quick') and ev.get('thorough') and ev['quick'][0] == ev['thorough'][0]:
+            out.append(f"| {cid} | both | {cell(ev['quick'][0])} | quick {cell(ev['quick'][1])}; thorough {cell(ev['thorough'][1])} |")
+        else:
+            for tier in ('quick', 'thorough'):
+                if tier in ev:
+                    out.append(f"| {cid} | {tier} | {cell(ev[tier][0])} | {cell(ev[tier][1])} |")
+    return '\n'.join(out)
+
+
 def main():
     k = json.load(open(os.path.join(HERE, 'known_findings.json')))
     p = os.path.join(HERE, 'DESIGN.md')
     d = open(p).read()
-    for name, body in (('fixed', fixed_table(k)), ('open', open_table(k)), ('seeds', seeds_table())):
+    for name, body in (('fixed', fixed_table(k)), ('open', open_table(k)), ('seeds', seeds_table()),
+                       ('alphabets', alphabets())):
         pat = re.compile(r'(<!-- BEGIN:%s -->\n).*?(\n<!-- END:%s -->)' % (name, name), re.S)
         if not pat.search(d):
             raise SystemExit(f'marker {name} missing in DESIGN.md')
